@@ -105,6 +105,11 @@ func pruneEmpty(dst, src proto.Message, mask fmutils.NestedMask) {
 			return true
 		}
 		if !srcPr.Has(d) {
+			if len(fieldMask) > 0 && d.Kind() == protoreflect.MessageKind && d.Cardinality() != protoreflect.Repeated {
+				// the mask names only parts of this message: clear those parts, not the whole message
+				pruneEmpty(dstPr.Get(d).Message().Interface(), srcPr.Get(d).Message().Interface(), fieldMask)
+				return true
+			}
 			dstPr.Clear(d)
 			return true
 		}
